@@ -8,10 +8,18 @@ Inductive raw_obs :=
 | RImportError
 | ROther.
 
+(** what an earlier use of the SAME loader object answered: [.start] read, or
+    [load(name)], in working directory [cwd] *)
+Inductive step_obs :=
+| SStart (cwd s : string)
+| SLoad (cwd : string) (o : raw_obs).
+
 Record case := mk {
   c_fs : fsys; c_cwd : string; c_start : string; c_name : string;
   c_raw : raw_obs;          (* module.__file__, parent as returned *)
-  c_abs : observed }.       (* the same made absolute (os.path.abspath) *)
+  c_abs : observed;         (* the same made absolute (os.path.abspath) *)
+  c_default_start : bool;   (* the loader was built without a start: [c_start] = [c_cwd] *)
+  c_prev : list step_obs }. (* earlier uses of the same loader object, in order *)
 
 Definition raw_eqb (m : load_res) (o : raw_obs) : bool :=
   match m, o with
@@ -28,8 +36,27 @@ Definition obs_consistent (c : case) : bool :=
   | _, _ => false
   end.
 
+Definition given_start (c : case) : option string :=
+  if c_default_start c then None else Some (c_start c).
+
+Definition step_eqb (c : case) (o : step_obs) : bool :=
+  match o with
+  | SStart cwd s =>
+      match step_run (c_fs c) (given_start c) (c_name c) (LStart cwd) with
+      | RStart s' => String.eqb s' s
+      | RLoad _ => false
+      end
+  | SLoad cwd r =>
+      match step_run (c_fs c) (given_start c) (c_name c) (LLoad cwd) with
+      | RLoad m => raw_eqb m r
+      | RStart _ => false
+      end
+  end.
+
 Definition corr (c : case) : bool :=
-  raw_eqb (load (c_fs c) (c_cwd c) (c_name c) (c_start c)) (c_raw c) && obs_consistent c.
+  raw_eqb (load (c_fs c) (c_cwd c) (c_name c) (eff_start (given_start c) (c_cwd c))) (c_raw c) &&
+  (if c_default_start c then String.eqb (c_start c) (c_cwd c) else true) &&
+  forallb (step_eqb c) (c_prev c) && obs_consistent c.
 
 (** the property quantifies over start *directories*: a start path that does
     not exist is outside it (the implementation answers CollectionNotFound
